@@ -567,8 +567,9 @@ func deriveTripCount(loop *Loop) {
 			// Determine if Dead (TripCount 0) or Divergent (Unknown)
 			isDead := false
 			if isUpCounting {
-				// Condition: i < limit. Loop runs if Start < Limit.
-				if startC.Cmp(limitC) >= 0 {
+				// Condition: i < limit (i <= limit when inclusive). Loop runs if Start < Limit,
+				// and an inclusive test also holds for Start == Limit.
+				if c := startC.Cmp(limitC); c > 0 || (c == 0 && !isInclusive) {
 					// Condition is false immediately.
 					isDead = true
 				} else if stepC.Sign() <= 0 {
@@ -577,8 +578,8 @@ func deriveTripCount(loop *Loop) {
 					return
 				}
 			} else {
-				// Condition: i > limit. Loop runs if Start > Limit.
-				if startC.Cmp(limitC) <= 0 {
+				// Condition: i > limit (i >= limit when inclusive). Loop runs if Start > Limit.
+				if c := startC.Cmp(limitC); c < 0 || (c == 0 && !isInclusive) {
 					isDead = true
 				} else if stepC.Sign() >= 0 {
 					// Start > Limit, but step is positive. Diverges.
